@@ -8,9 +8,11 @@ import time
 
 VERIF = os.path.dirname(os.path.dirname(os.path.abspath(__file__)))
 SPEC = os.path.join(VERIF, "spec")
-WORK = os.path.join(VERIF, ".work")
-EVID = os.path.join(VERIF, "evidence")
-REPLAY = os.path.join(VERIF, ".work", "replay")
+# VERIF_WORK / VERIF_EVID: scratch and evidence directories of a run that must not disturb /verif's own (the evaluation of a
+# seeded change in a scratch worktree, next to other runs); the registered commands do not set them
+WORK = os.environ.get("VERIF_WORK") or os.path.join(VERIF, ".work")
+EVID = os.environ.get("VERIF_EVID") or os.path.join(VERIF, "evidence")
+REPLAY = os.path.join(WORK, "replay")
 REPO = os.environ.get("VERIF_REPO", "/repo")
 IMPL_PY = "/venv/bin/python"
 
